@@ -48,31 +48,31 @@ theorem newDT_np_all :
     intro path child n nl md hn ih
     simp only [newDT, hn, if_false]
     exact bind_no_panic _ _ ih (fun _ => rfl)
-  case case37 =>
-    intro path ename kf vf rest enl emd sorted nl md ihk ihv
+  case case38 =>
+    intro path ename kf vf enl emd sorted nl md ihk ihv
     simp only [newDT]
     exact bind_no_panic _ _ ihk (fun _ => bind_no_panic _ _ ihv (fun _ => rfl))
-  case case41 =>
+  case case42 =>
     intro path fs nl md ih
     simp only [newDT]
     exact bind_no_panic _ _ ih (fun _ => mkStruct_np _ _ _)
-  case case42 =>
-    intro path k v nl md ihk ihv
-    simp only [newDT]
-    exact bind_no_panic _ _ ihk (fun _ => bind_no_panic _ _ ihv (fun _ => rfl))
   case case43 =>
+    intro path k v nl md hint ihk ihv
+    simp only [newDT, hint, if_true]
+    exact bind_no_panic _ _ ihk (fun _ => bind_no_panic _ _ ihv (fun _ => rfl))
+  case case45 =>
     intro path fs mode nl md ih
     simp only [newDT]
     exact bind_no_panic _ _ ih (fun _ => rfl)
-  case case46 =>
+  case case48 =>
     intro path name dt nl md ih
     simp only [newB]
     exact ih
-  case case48 =>
+  case case50 =>
     intro path f rest ihf ihr
     simp only [newFields]
     exact bind_no_panic _ _ ihf (fun _ => bind_no_panic _ _ ihr (fun _ => rfl))
-  case case51 =>
+  case case53 =>
     intro path tid f rest idx hne ihf ihr
     simp only [newUnionFields, hne]
     exact bind_no_panic _ _ ihf (fun _ => bind_no_panic _ _ ihr (fun _ => rfl))
